@@ -3,6 +3,7 @@ inside that loop too — otherwise the content of earlier iterations (other vari
 later ones."""
 from ..syn import es
 from ..terms import strip_refs, analyse_iter
+from .c12 import BOUND_FN
 
 FILL_METHODS = {'extend', 'push', 'insert', 'push_str', 'append', 'push_back'}
 
@@ -42,7 +43,9 @@ def check_scopes(cx, rep, needles=None, rule='ACC-SCOPE'):
                     d = ev.scope.lookup(base['path']['s'])
                     if d is not None and d.id in fills:
                         consumes.setdefault(d.id, []).append(ev)
-            if ev.kind in ('mcall', 'call'):
+            # handing it to the bound computation (the where-clause is emitted from it); other calls (lookups, helper predicates)
+            # legitimately read running state
+            if ev.kind == 'mcall' and ev.method == BOUND_FN:
                 for a in ev.args:
                     x = strip_refs(a)
                     if x['k'] == 'Path' and len(x['path']['segs']) == 1:
@@ -54,12 +57,12 @@ def check_scopes(cx, rep, needles=None, rule='ACC-SCOPE'):
             if not cons:
                 continue
             n += 1
-            def_loops = set(c['id'] for c in d.ctx if c['k'] in ('for', 'loop'))
+            def_loops = set(c['id'] for c in d.ctx if c['k'] == 'for')
             bad = None
             for f_ev in fl:
-                floops = [c for c in f_ev.ctx if c['k'] in ('for', 'loop')]
+                floops = [c for c in f_ev.ctx if c['k'] == 'for']   # a while/loop search carries its state by design
                 for c_ev in cons:
-                    cloops = set(c['id'] for c in c_ev.ctx if c['k'] in ('for', 'loop'))
+                    cloops = set(c['id'] for c in c_ev.ctx if c['k'] == 'for')
                     for L in floops:
                         if L['id'] in cloops and L['id'] not in def_loops:
                             # filled and consumed inside the same loop, created outside it
